@@ -434,3 +434,21 @@ def run(prog: Program, res: Result) -> None:  # noqa: PLR0912, PLR0915
                 res.ok("C06.R7", f"{mod.relpath}:{c.lineno} {prog.qual_at(mod, c)}", f"`{norm(c)}`", "None means unlimited")
     res.floor("C06.R7", "limit presence tests (is / is not None)", n_cmp, 1)
     del out_mod
+
+    # ------------------------------------------------------------------ R8 the interpreter's stack is the last depth limit
+    res.rule("C06.R8", "Template.render_with_context[_async] - the frame every partial, parent and macro-free recursion passes through - converts RecursionError into ContextDepthError: a cyclic template graph whose levels nest several block tags exhausts Python's stack before the configured context depth is reached, and must still end in a depth error")
+    tmpl8 = prog.cls("liquid2.template.Template")
+    for nm in ("render_with_context", "render_with_context_async"):
+        m8 = tmpl8.methods.get(nm)
+        if m8 is None:
+            raise AnalysisError(f"Template.{nm} vanished")
+        ok8 = False
+        for h in ast.walk(m8.node):
+            if isinstance(h, ast.ExceptHandler) and h.type is not None and "RecursionError" in {norm(x).split(".")[-1] for x in (h.type.elts if isinstance(h.type, ast.Tuple) else [h.type])}:
+                if any(isinstance(r, ast.Raise) and r.exc is not None and "ContextDepthError" in norm(r.exc) for r in h.body):
+                    ok8 = True
+        what8 = f"Template.{nm}: RecursionError becomes ContextDepthError"
+        if ok8:
+            res.ok("C06.R8", f"{m8.file}:{m8.node.lineno} Template.{nm}", what8, "except RecursionError: raise ContextDepthError(...)")
+        else:
+            res.fail("C06.R8", file=m8.file, line=m8.node.lineno, qualname=f"Template.{nm}", construct=f"Template.{nm} lets RecursionError through", message=f"Template.{nm} does not convert RecursionError: mutually recursive partials whose bodies nest a few block tags (about six) exhaust the interpreter's stack before context_depth_limit (30) is reached and the render dies with RecursionError instead of a depth error", what=what8)
